@@ -27,9 +27,15 @@ type State struct {
 	defers   map[int][]deferred // frame id -> defer stack
 	open     map[loopKey]*openLoop
 	trace    []string
-	panicVal Val    // non-nil while panicking (during deferred calls)
-	fdepth   int    // number of forks taken on this path
-	choices  string // branch choices taken so far ("0"/"1" per fork)
+	panicVal Val        // non-nil while panicking (during deferred calls)
+	dirty    []dirtyRec // heap class prefixes havocked selectively, with the epoch of the havoc
+	fdepth   int        // number of forks taken on this path
+	choices  string     // branch choices taken so far ("0"/"1" per fork)
+}
+
+type dirtyRec struct {
+	prefix string
+	epoch  int
 }
 
 type deferred struct {
@@ -67,6 +73,7 @@ func (s *State) clone() *State {
 		n.open[k] = v
 	}
 	n.trace = append([]string(nil), s.trace...)
+	n.dirty = append([]dirtyRec(nil), s.dirty...)
 	return n
 }
 
@@ -299,7 +306,13 @@ func (x *Exec) heapArr(st *State, class, sort string) string {
 	if t, ok := st.heap[class]; ok {
 		return t
 	}
-	name := fmt.Sprintf("H|%s|e%d", class, st.epoch)
+	ep := st.epoch
+	for _, d := range st.dirty {
+		if strings.HasPrefix(class, d.prefix) && d.epoch > ep {
+			ep = d.epoch
+		}
+	}
+	name := fmt.Sprintf("H|%s|e%d", class, ep)
 	x.declare(name, sort)
 	st.heap[class] = smtSym(name)
 	return st.heap[class]
@@ -309,11 +322,25 @@ func (x *Exec) havocHeap(st *State, why string) {
 	x.epochCtr++
 	st.epoch = x.epochCtr
 	st.heap = map[string]string{}
+	st.dirty = nil
 	// allocation watermark moves: objects allocated by the callee are below the new one
 	nw := smtSym(x.fresh("allocW", "Int"))
 	x.assume("(>= " + nw + " (+ " + st.allocW + " " + strconv.Itoa(st.nAlloc) + "))")
 	st.allocW = nw
 	st.nAlloc = 0
+}
+
+// havocClasses forgets the contents of the heap classes with the given prefixes only.
+func (x *Exec) havocClasses(st *State, prefixes []string) {
+	x.epochCtr++
+	for _, p := range prefixes {
+		for c := range st.heap {
+			if strings.HasPrefix(c, p) {
+				delete(st.heap, c)
+			}
+		}
+		st.dirty = append(st.dirty, dirtyRec{p, x.epochCtr})
+	}
 }
 
 func (x *Exec) newRef(st *State) string {
@@ -749,7 +776,10 @@ func (x *Exec) loopArrive(st *State, fr *Frame, lp *loop, head *ssa.BasicBlock, 
 	}
 	if lp.writesHeap {
 		x.havocHeap(st, "loop")
-		x.note("loop in " + fname + " may write the heap: heap havocked at loop head")
+		x.note("loop in " + fname + " may write the heap through a call: heap havocked at loop head")
+	} else if len(lp.heapClasses) > 0 {
+		x.havocClasses(st, lp.heapClasses)
+		x.note("loop in " + fname + " writes heap classes " + strings.Join(lp.heapClasses, ", ") + ": those havocked at loop head")
 	}
 	for _, c := range lp.outerCells {
 		_ = c
@@ -1222,10 +1252,30 @@ func (x *Exec) frameCheck(st *State, fr *Frame, in ssa.Instruction, p Ptr) {
 		return
 	}
 	if p.Arr != "" {
+		if x.classAllowed("E|" + typeKey(p.Elem)) {
+			return
+		}
 		x.frameCheckRef(st, fr, in, p.Arr, "array")
 		return
 	}
+	names, _ := pathNames(p.Elem, p.Path)
+	if x.classAllowed("F|" + typeKey(p.Elem) + names) {
+		return
+	}
 	x.frameCheckRef(st, fr, in, p.Ref, "object")
+}
+
+// classAllowed: does an `assigns class:<substr>` pattern cover this heap class?
+func (x *Exec) classAllowed(class string) bool {
+	if x.fc == nil {
+		return false
+	}
+	for _, a := range x.fc.Assigns {
+		if strings.HasPrefix(a, "class:") && strings.Contains(class, strings.TrimPrefix(a, "class:")) {
+			return true
+		}
+	}
+	return false
 }
 
 func (x *Exec) frameCheckRef(st *State, fr *Frame, in ssa.Instruction, ref, what string) {
@@ -1234,7 +1284,7 @@ func (x *Exec) frameCheckRef(st *State, fr *Frame, in ssa.Instruction, ref, what
 	}
 	allowed := []string{"(>= " + ref + " " + x.entryAllocW + ")"}
 	for _, a := range x.fc.Assigns {
-		if a == "nothing" || a == "fresh" {
+		if a == "nothing" || a == "fresh" || strings.HasPrefix(a, "class:") {
 			continue
 		}
 		// an lvalue pattern naming an object by expression over entry state: "*p" or "p"
